@@ -1600,7 +1600,7 @@ func c01AuditEmbedded(r *rand.Rand, tier string) []c01AuditCase {
 	pb := func() *A7PBase { return &A7PBase{P: r.Intn(10), Q: [][]string{nil, {}, {"q"}}[r.Intn(3)]} }
 	pbq := func() *A7PBase { return &A7PBase{P: r.Intn(10), Q: []string{"q", "<r>"}} }
 	pbe := func() *A7PBase { return &A7PBase{P: r.Intn(10), Q: [][]string{nil, {}}[r.Intn(2)]} }
-	const omitOpen = "EmbeddedStructWithOptionsOnlyTag"
+	const omitOpen = "" // was the finding EmbeddedStructWithOptionsOnlyTag: repaired in /repo (80bb8f3), the cases run like any other
 	const nestedOpen = "NestedEmbeddedPtrEndingInOmittedSlice"
 	type cs struct {
 		x    interface{}
